@@ -20,6 +20,8 @@ def _to_string_via_display(eng, m, args, fr, dty):
     callee = '<%s as Display>::fmt' % ty
     fn = eng.resolve(callee) or eng.resolve('<%s as std::fmt::Display>::fmt' % ty)
     if fn is None:
+        if re.search(r'Err|Error|Failure', ty):
+            return Opaque('error message')          # message text of an error type without a MIR Display body
         return NotImplemented
     f = FormatterV()
     r = eng.run(eng.funcs[fn], [args[0], Ref(Cell(f))])
